@@ -29,6 +29,8 @@ def run(ctx, ss):
     for r, f in (("C05.1", c05_1), ("C05.2", c05_2), ("C05.3", c05_3)):
         ctx.guard(r, f, ss)
     ctx.guard("C05.4", lambda c, s: _as(c, s, c01_5, "C05.4"), ss)
+    from .c06 import c06_5
+    ctx.guard("C05.5", lambda c, s: _as(c, s, c06_5, "C05.5"), ss)
 
 
 def _as(ctx, ss, f, rule):
